@@ -351,8 +351,11 @@ pub fn run(run: &Run) -> i32 {
         let mut texts = Vec::new();
         for mask in 0..64u64 {
             let h = Small::from_mask(2, 3, mask).sparse();
-            texts.push(h.alist());
-            texts.push(h.alist_no_padding());
+            // a writer failure is reported by the round-trip part; here it only removes a seed text
+            if let Ok((a, b)) = guard(|| (h.alist(), h.alist_no_padding())) {
+                texts.push(a);
+                texts.push(b);
+            }
         }
         let muts: Vec<String> = texts.iter().flat_map(|t| mutations_of(t)).collect();
         let a = par_items(&muts, |t, a| check_text(t, "mutation", a));
